@@ -366,6 +366,24 @@ class Gen:
                     if nm == "pub":
                         continue
                     self._emit_item(src, r"^\s*(pub(\([a-z]+\))?\s+)?" + cmd + r"\s+" + re.escape(nm) + r"\b", name, mkpub)
+            elif cmd == "pubkey":
+                # //@ pubkey <file> NAME...  : `pub const NAME: Pubkey = pubkey!("<base58>")` of the repository becomes the same constant with its 32 decoded bytes
+                src = Source.get(os.path.join(self.root, toks[0]))
+                for nm in toks[1:]:
+                    m = re.search(r"pub const " + re.escape(nm) + r"\s*:\s*Pubkey\s*=\s*pubkey!\(\"([1-9A-HJ-NP-Za-km-z]+)\"\);", src.text)
+                    if not m:
+                        raise Undecided(f"lost anchor: pubkey constant {nm} not found in {src.rel}")
+                    alphabet = "123456789ABCDEFGHJKLMNPQRSTUVWXYZabcdefghijkmnopqrstuvwxyz"
+                    n = 0
+                    for ch in m.group(1):
+                        n = n * 58 + alphabet.index(ch)
+                    raw = n.to_bytes(32, "big") if n.bit_length() <= 256 else None
+                    if raw is None:
+                        raise Undecided(f"pubkey constant {nm}: not a 32-byte key")
+                    self.out.emit(f"pub const {nm}: Pubkey = Pubkey([" + ", ".join(str(b) for b in raw) + "]);", ("repo", src.rel, line_of(src.text, m.start())), list(self.tags))
+                    self.log.append(f"PUBKEY {src.rel}::{nm} = base58 {m.group(1)} decoded to 32 bytes")
+                    self.functions.append(dict(kind="item", name=nm, file=src.rel, lines=[line_of(src.text, m.start())] * 2,
+                                               sha=hashlib.sha256(m.group(0).encode()).hexdigest()[:16], tags=list(self.tags)))
             elif cmd == "item":
                 src = Source.get(os.path.join(self.root, toks[0]))
                 self._emit_item(src, rx(toks[1]), name)
@@ -427,6 +445,7 @@ class Gen:
         nodec = False
         make_pub = False
         rename = None
+        want_canary = False
         k = 0
         while k < len(opts):
             o = opts[k]
@@ -447,6 +466,8 @@ class Gen:
                 make_pub = True
             elif o.startswith("as="):
                 rename = o[3:]
+            elif o == "canary":
+                want_canary = True
             else:
                 raise Undecided(f"{rel_tpl}:{tpl_line}: bad option {o}")
             k += 1
@@ -520,6 +541,23 @@ class Gen:
                                    tags=tags, stub=bool(stub and body is not None), nodec=nodec,
                                    gen_start=gen_start, gen_end=len(self.out.lines),
                                    has_contract=any(t.strip() for _, t in contract)))
+        if want_canary and body is not None and not stub and binder and re.search(r"->\s*\(\w+:\s*(core::result::|std::result::)?Result<", sig_out):
+            # reachability canary (vacuity guard): the SAME body with the same requires, loop clauses, ghost injections and rewrites, but with the contract
+            # `ensures <binder> is Err` ("never succeeds"); tools/run.py demands that exactly this postcondition fails
+            cname = "reach_canary_" + fnname
+            ctext = "\n".join(tx for _, tx in contract)
+            km = re.search(r"\bensures\b", ctext)
+            req = (ctext[:km.start()] if km else ctext).rstrip()
+            sig_c = re.sub(r"\bfn\s+" + re.escape(fnname) + r"\b", "fn " + cname, sig_out, count=1)
+            if nodec:
+                o.emit("#[verifier::exec_allows_no_decreases_clause]", None, tags, cname)
+            for a in attrs:
+                o.emit(a, None, tags, cname)
+            o.emit(sig_c.rstrip(), ("repo", src.rel, line_of(src.text, sig_start_line)), tags, cname)
+            if req.strip():
+                o.emit(req, ("tpl", rel_tpl, tpl_line), tags, cname)
+            o.emit(f"    ensures {binder} is Err,", ("tpl", rel_tpl, tpl_line), tags, cname)
+            self._emit_body(src, ob, body, body_mask, loops, injects, rewrites, rel_tpl, tags, cname, rel, name)
 
     def _parse_block(self, block, rel_tpl):
         """contract lines and the sub-directives (loop / inject / rewrite*) of a //@ fn or //@ seg block"""
